@@ -5,8 +5,8 @@ stepscheck.py - the GUI step API of Model (_GetSteps / _RunStep) as an alternati
 spec:   spec/Steps.tla (EXTENDS ModelBuild): Model.RunSteps as a list of command sets, one action RunStep(cmd)
         for any command of the head set; TLC explores ALL orders of the per-sector commands of the small
         blueprints and checks Steps_RefinesMain / C08_StepOrderIndependent / Steps_CommandsAreSectors.
-replay: every emitted maximal behaviour (blueprint, order of commands) - all of them for six-sector blueprints,
-        a seeded sample for the 7! orders of the seven-sector ones - is executed on the real classes: the model
+replay: the emitted maximal behaviours (blueprint, order of commands) - all 720 of SIM, a seeded sample of the
+        orders of the other blueprints - are executed on the real classes: the model
         program of the blueprint (canonical declaration order) is run up to main(), then driven through
         m._GetSteps() / m._RunStep(cmd) in the emitted order.  The result is compared OBSERVED vs OBSERVED with
         the same program run through m.main(): same variable set and identical exact-oracle series
@@ -34,7 +34,8 @@ from harness import core, modelcheck
 CLAUSE = 'C08_StepOrderIndependent'
 FIXED = ['Generate Sector Codes', 'Fix Aliases', 'Generate Equations', 'Process Cash Flows', 'Process Exogenous',
          'Fix Aliases (Pass #2)', 'Final Equations', 'Solve']
-SAMPLE_PER_LARGE = 300          # orders replayed per blueprint with more than 720 orders (thorough)
+FULL_REPLAY = ('SIM',)          # blueprints whose emitted orders are ALL replayed
+SAMPLE_PER_LARGE = 240          # seeded sample of the emitted orders of every other blueprint (thorough)
 RANDOM_ORDERS_OTHERS = 3        # seeded random orders per blueprint outside the exhaustive instance
 
 
@@ -258,8 +259,7 @@ def generate(rep, cfg, workers=8):
 
 
 def choose(behs, seed, per_large=SAMPLE_PER_LARGE):
-    """All orders of a blueprint with at most 720 of them; otherwise the order that follows GetSectors() plus a
-    seeded sample."""
+    """All emitted orders of the blueprints in FULL_REPLAY, a seeded sample of the others (budget of the tier)."""
     rnd = random.Random('steps|%s' % seed)
     by = {}
     for b in behs:
@@ -267,7 +267,7 @@ def choose(behs, seed, per_large=SAMPLE_PER_LARGE):
     out = []
     for name in sorted(by):
         lst = by[name]
-        if len(lst) <= 720:
+        if name in FULL_REPLAY or len(lst) <= per_large:
             out.extend(lst)
         else:
             lst = list(lst)
@@ -304,8 +304,8 @@ def run_steps(rep, procs=None):
         if case['order'] is None:
             case['order'] = ev['order']
     rep.rule += ('; step schedule (spec/Steps.tla): TLC explores every order in which the GUI step API lets the per-sector '
-                 'generate commands be taken for the small blueprints; all orders of the six-sector blueprints, a seeded sample '
-                 'of %d per seven-sector blueprint, and the _RunAllSteps schedule + %d seeded random orders of every well-formed '
+                 'generate commands be taken for the small blueprints; all 720 orders of SIM, a seeded sample '
+                 'of %d orders of every other blueprint, and the _RunAllSteps schedule + %d seeded random orders of every well-formed '
                  'blueprint of the family are driven through Model._GetSteps/_RunStep and compared (exact oracle, observed vs '
                  'observed) with main() on the same model program' % (SAMPLE_PER_LARGE, RANDOM_ORDERS_OTHERS))
     rep.extra['step_orders_emitted_by_tlc'] = len(behs)
